@@ -10,6 +10,20 @@ import time
 import warnings
 
 
+def san_files(prefix):
+    import glob
+    return sorted(glob.glob(prefix + '.*'))
+
+
+def san_size(prefix):
+    return sum(os.path.getsize(f) for f in san_files(prefix))
+
+
+def san_tail(prefix, offset):
+    txt = ''.join(open(f, errors='replace').read() for f in san_files(prefix))
+    return txt[offset:]
+
+
 def main():
     spec = json.load(open(sys.argv[1]))
     out = sys.argv[2]
@@ -35,6 +49,8 @@ def main():
         mod.setup(ctx)
     budget = spec.get('budget_s')
     done = 0
+    san_prefix = spec.get('san_log') if spec.get('variant') == 'tsan' else None
+    san_seen = 0
     for idx in range(spec['start'], spec['start'] + spec['n']):
         if budget and time.time() - t0 > budget and done >= spec.get(
                 'min_cases', 1):
@@ -47,6 +63,22 @@ def main():
         except Exception as e:  # noqa
             ctx.crash('uncaught.%s' % type(e).__name__, e)
         done += 1
+        if san_prefix:
+            # ThreadSanitizer keeps running after a report: attribute new
+            # report text to the case that just ran
+            sz = san_size(san_prefix)
+            if sz > san_seen:
+                txt = san_tail(san_prefix, san_seen)
+                san_seen = sz
+                import re
+                heads = re.findall(r'WARNING: ThreadSanitizer: [^\n]*', txt)
+                fn = re.findall(r'#\d+ (\S+) [^\n]*enspara', txt)
+                ctx.violation('tsan.%s' % (
+                    heads[0].split(': ')[-1].split(' (')[0].replace(' ', '-')
+                    if heads else 'report'),
+                    '%d ThreadSanitizer report(s) during this case; frames '
+                    'in enspara: %s' % (len(heads), sorted(set(fn))[:6]),
+                    {'excerpt': txt[:3000]})
     if hasattr(mod, 'teardown'):
         mod.teardown(ctx)
     res = ctx.result()
